@@ -26,6 +26,10 @@ func c18Stream(rng *rand.Rand, fileType int) *Stream {
 	s.Def(9, arch, 20, []FieldDef{{2, 2, 0x84}, {78, 4, 0x86}}, nil)                                               // source and destination both explicit
 	s.Def(10, arch, 19, []FieldDef{{110, 4, 0x86}, {14, 2, 0x84}, {42, 2, 0x84}}, nil)                             // lap: one enhanced field explicit, other sources legacy
 	s.Def(11, arch, 18, []FieldDef{{126, 4, 0x86}, {14, 2, 0x84}, {71, 2, 0x84}}, nil)                             // session: likewise
+	// source and its own destination both carried, with different values, in every host message
+	s.Def(12, arch, 19, []FieldDef{{13, 2, 0x84}, {110, 4, 0x86}, {43, 2, 0x84}, {114, 4, 0x86}}, nil) // lap
+	s.Def(13, arch, 18, []FieldDef{{14, 2, 0x84}, {124, 4, 0x86}, {71, 2, 0x84}, {127, 4, 0x86}}, nil) // session
+	s.Def(14, arch, 142, []FieldDef{{34, 2, 0x84}, {91, 4, 0x86}, {54, 2, 0x84}, {93, 4, 0x86}}, nil)  // segment_lap
 	dist := rng.Intn(4096)
 	cyc := rng.Intn(256)
 	pow := rng.Intn(65536)
@@ -81,6 +85,12 @@ func c18Stream(rng *rand.Rand, fileType int) *Stream {
 				s.Data(8, append([]byte{ev}, u16(v16())...))
 			}
 		case 9:
+			if rng.Intn(2) == 0 {
+				l := 12 + rng.Intn(3)
+				pl := append(append(append(u16(v16()), wire(u32le(uint32(rng.Intn(100000))), arch)...), u16(v16())...), wire(u32le(uint32(rng.Intn(100000))), arch)...)
+				s.Data(l, pl)
+				break
+			}
 			switch rng.Intn(3) {
 			case 0:
 				s.Data(9, append(u16(v16()), wire(u32le(rng.Uint32()), arch)...))
@@ -136,6 +146,31 @@ func runC18(c *Ctx) {
 	compCalls := componentsReplay(c, p, sch, scripts, &id)
 	mm = append(mm, c.validateCalls(p, sch, compCalls, 14)...)
 	calls = append(calls, compCalls...)
+	// unbounded in the number of records: Apalache discharges the inductive
+	// invariant of the accumulator arithmetic (Impl = Contract forever) and
+	// must refute it for the mask-zero deviation
+	obl := [][5]string{{"Init", "Next", "IndInv", "0", "NoError"}, {"IndInit", "Next", "IndInv", "1", "NoError"},
+		{"IndInit", "Next", "StepIsLeast", "1", "NoError"}, {"IndInit", "NextMaskZero", "IndInv", "1", "Error"}}
+	discharged := 0
+	for _, o := range obl {
+		n := 0
+		if o[3] == "1" {
+			n = 1
+		}
+		res, out := c.runApalacheNext("AccumulateInt", o[0], o[1], o[2], n)
+		switch {
+		case res == o[4]:
+			discharged++
+		case res == "Error":
+			c.report("accumulate-inductive", "Apalache: "+o[2]+" is not inductive for the accumulator arithmetic (AccumulateInt):\n"+tail(out, 1500), nil)
+		case res == "NoError":
+			c.die("AccumulateInt: the mask-zero deviation is not refuted (vacuous invariant)\n%s", tail(out, 800))
+		default:
+			c.die("apalache-mc failed on AccumulateInt (%s/%s/%s):\n%s", o[0], o[1], o[2], tail(out, 1500))
+		}
+	}
+	c.Cov["apalache_obligations"] = len(obl)
+	c.Cov["apalache_discharged"] = discharged
 	c.reportFamily(p, mm, nil)
 	c.verdictStats(calls)
 	c.Cov["evaluations"] = len(calls)
